@@ -13,14 +13,19 @@
 (***************************************************************************)
 EXTENDS QueryRef, Json
 
-CONSTANTS MaxTokLen, MaxDict, Family, MaxTerms, MaxTextLen   \* Family \in {"glob", "match", "infix", "range"}
+CONSTANTS MaxTokLen, MaxDict, Family, MaxTerms, MaxTextLen   \* Family \in {"glob", "match", "infix", "mb", "range"}
 
 VARIABLES dict, layout, tok
 vars == <<dict, layout, tok>>
 
 \* ---------------------------------------------------------------- universes
-Chars == {"a", "b"}
-Strs(n) == UNION {[1..m -> Chars] : m \in 0..n}
+\* family "mb": strings are BYTE strings; X Y is one two-byte character (0xC3 0xA9), every X is followed by Y and every Y
+\* preceded by X (valid UTF-8). Dictionary borders (MinVal / MaxVal) and hints then end inside or next to a multi-byte
+\* character, which is what token.Table.SelectEntries cuts and compares bytewise.
+Chars == IF Family = "mb" THEN {"a", "X", "Y"} ELSE {"a", "b"}
+ValidUtf8(s) == \A i \in 1..Len(s) : /\ (s[i] = "X" => (i < Len(s) /\ s[i + 1] = "Y"))
+                                      /\ (s[i] = "Y" => (i > 1 /\ s[i - 1] = "X"))
+Strs(n) == {s \in UNION {[1..m -> Chars] : m \in 0..n} : Family # "mb" \/ ValidUtf8(s)}
 TextTerms == Strs(MaxTextLen) \ {<<>>}
 Term == TextTerms \cup {Star}
 NoAdjText(p) == \A i \in 1..(Len(p) - 1) : ~(p[i] # Star /\ p[i + 1] # Star)
